@@ -82,12 +82,22 @@ fn judge(e: &Exec) -> Vec<(String, String)> {
     crate::sess::filter(e, &CATS)
         .into_iter()
         .filter(|m| {
-            if m.cat != Cat::WrongErrClass {
-                return true;
-            }
-            match e.steps.get(m.step).map(|s| &s.expect) {
+            let st = e.steps.get(m.step);
+            let expects_state_err = match st.map(|s| &s.expect) {
                 Some(Expect::Err(c)) | Some(Expect::Either(_, c)) => c.iter().any(state_err),
                 _ => false,
+            };
+            match m.cat {
+                // the class of an error and "no effect" are judged for out-of-phase calls only
+                Cat::WrongErrClass | Cat::NoOp => expects_state_err,
+                // an in-phase call refused with a *state* error is this property's business; one refused for a
+                // cryptographic or size reason is not (C02 / C07)
+                Cat::ExpectedOkGotErr => {
+                    matches!(st.map(|s| &s.real), Some(crate::exec::Real::Err(c)) if state_err(c))
+                        // ... unless an out-of-phase call was made earlier on this path: it must have had no effect
+                        || e.steps[..m.step.min(e.steps.len())].iter().any(|p| matches!(&p.expect, Expect::Err(c) if c.iter().any(state_err)) && !p.real.is_ok())
+                },
+                _ => true,
             }
         })
         .map(|m| (crate::sess::signature(e, m), format!("{}: {}", e.cfg.name, m.detail)))
